@@ -14,7 +14,7 @@ from checks import devs_common as dc
 PID = "C02"
 
 
-def listener_scheduling(ctx: Ctx):
+def listener_scheduling(ctx: Ctx, scale=1.0):
     """ClockListeners.tla: the clock discipline when TIME_CHANGED listeners schedule events too"""
     import random
     from harness import tlc, traces
@@ -40,7 +40,7 @@ def listener_scheduling(ctx: Ctx):
     nl = 0
     for step_mode in (False, True):
         trs, labels = [], []
-        for i in range(ctx.pick(120, 1200) if not step_mode else ctx.pick(60, 600)):
+        for i in range(int(scale * (ctx.pick(120, 1200) if not step_mode else ctx.pick(60, 600)))):
             conc = ("float", "int", "dur", "mixed")[i % 4]
             tr, errors = dt.run_model(conc, random.Random(ctx.seed * 7919 + i + (500000 if step_mode else 0)), end_t=ctx.rng.choice([4, 6]), step_mode=step_mode)
             ctx.evaluations += 1
